@@ -38,6 +38,10 @@ pub enum Op {
     /// SET_VRING_ERR: carries a descriptor like SET_VRING_KICK / SET_VRING_CALL but has no part
     /// in the ring's state
     Errfd(usize),
+    /// RESET_OWNER + SET_OWNER: forgets the negotiated features, is no ring-disabling message
+    ResetOwner,
+    /// SET_PROTOCOL_FEATURES once more while rings are live: no part in the rings' state
+    ProtoAgain,
 }
 
 const ALPHA1: [Op; 9] = [
@@ -76,9 +80,11 @@ fn gen_history(t: &mut Tape, nrings: usize, deep: bool) -> Vec<Op> {
     let mut v = Vec::new();
     for _ in 0..n {
         let r = t.draw(nrings as u64) as usize;
-        v.push(match t.draw(16) {
+        v.push(match t.draw(18) {
             14 => Op::KickNofd(r),
             15 => Op::Errfd(r),
+            16 => Op::ResetOwner,
+            17 => Op::ProtoAgain,
             0 => Op::SetFeaturesNoPf,
             1 => Op::SetFeaturesPf,
             2 | 3 => Op::Kickfd(r),
@@ -123,7 +129,7 @@ pub fn def() -> PropDef {
         quick_runs: 20000,
         thorough_runs: 1_500_000,
         level: "exploration",
-        rule: "a live daemon (2 rings, one or two workers, VringMutex or VringRwLock, Mutex or RwLock backend adapter) driven by the real Frontend through a control-message history; index < 819 enumerates every history of length 1..3 over {SET_FEATURES without/with PROTOCOL_FEATURES, SET_VRING_KICK with a new descriptor, SET_VRING_KICK without a descriptor, ENABLE 1, ENABLE 0, GET_VRING_BASE, RESET_DEVICE, guest kick} on ring 0; beyond that seeded histories of 1..14 steps on both rings incl. SET_VRING_CALL/ERR/BASE/NUM and guest kicks on descriptors the ring gave up; after every step the harness waits for quiescence (nothing can happen later without an external event) and compares the backend's handle_event log and GET_VRING_BASE results with a reference ring state machine; distinct = distinct (workload tape, interleaving, fault trace); non-trivial = history has >= 2 steps",
+        rule: "a live daemon (2 rings, one or two workers, VringMutex or VringRwLock, Mutex or RwLock backend adapter) driven by the real Frontend through a control-message history; index < 819 enumerates every history of length 1..3 over {SET_FEATURES without/with PROTOCOL_FEATURES, SET_VRING_KICK with a new descriptor, SET_VRING_KICK without a descriptor, ENABLE 1, ENABLE 0, GET_VRING_BASE, RESET_DEVICE, guest kick} on ring 0; beyond that seeded histories of 1..14 steps on both rings incl. SET_VRING_CALL/ERR/BASE/NUM, RESET_OWNER + SET_OWNER, a repeated SET_PROTOCOL_FEATURES and guest kicks on descriptors the ring gave up; after every step the harness waits for quiescence (nothing can happen later without an external event) and compares the backend's handle_event log and GET_VRING_BASE results with a reference ring state machine; distinct = distinct (workload tape, interleaving, fault trace); non-trivial = history has >= 2 steps",
         assumptions: ASSUME,
         real: REAL_D,
         stubs: STUB_D,
@@ -280,6 +286,25 @@ fn run_v<V: VringT<GM<()>> + Clone + Send + Sync + 'static>(sim: &Sim, cfg: &Run
                 m[r].pending = false;
                 if let Some(old) = kickfds[r].take() {
                     oldfds[r].push(old);
+                }
+            }
+            Op::ResetOwner => {
+                if let Err(e) = vmm.fe.reset_owner().and_then(|_| vmm.fe.set_owner()) {
+                    viol("control_message_failed", format!("{op:?}"), format!("step {step} {op:?}: {e:?}"));
+                }
+                // features have to be negotiated again before feature-dependent messages
+                fe_pf_acked = false;
+                proto_done = false;
+                sim.probe("owner_reset_with_live_rings");
+            }
+            Op::ProtoAgain => {
+                if !proto_done {
+                    skipped = true;
+                } else if let Err(e) = vmm
+                    .fe
+                    .set_protocol_features(vhost::vhost_user::message::VhostUserProtocolFeatures::from_bits_retain(pf::RESET_DEVICE | pf::MQ))
+                {
+                    viol("control_message_failed", format!("{op:?}"), format!("step {step} {op:?}: {e:?}"));
                 }
             }
             Op::Errfd(r) => {
